@@ -56,6 +56,9 @@ pub enum GenerateError {
     /// Mesh shader stages only expect the special mesh outputs
     UnexpectedOutputFromMeshStage,
 
+    /// Only the mesh stage can have vertices / primitives outputs
+    UnexpectedMeshOutput,
+
     /// Mesh output rewriting failed
     ComplexMeshOutput,
 
